@@ -178,6 +178,21 @@ def farm_gen_op(rng, w):
     pend = w.__dict__.setdefault("c20_pending", [])
     if pend:
         return pend.pop(0)
+    if w.shadow["rate"] != 0 and not w.shadow["produce"] and rng.random() < 0.5:
+        # production is stopped: what was settled before the stop is still owed - quote and claim while stopped
+        cands = [u for u in range(1, sf.NUSERS + 1) if sf.positions_of(w, u)]
+        if cands:
+            c = rng.choice(cands)
+            n, v = rng.choice(sf.positions_of(w, c))
+            return ["Claim", c, (n, v if rng.random() < 0.5 else rng.randint(1, v)), []]
+    if w.shadow["rate"] != 0 and w.shadow["produce"] and w.last["supply"] > 0 and rng.random() < 0.04:
+        # scripted: blocks pass, the owner stops production (which settles them), then a quoted claim while stopped
+        cands = [u for u in range(1, sf.NUSERS + 1) if sf.positions_of(w, u)]
+        if cands:
+            c = rng.choice(cands)
+            n, v = rng.choice(sf.positions_of(w, c))
+            pend.extend([["End", sf.OWNER], ["Claim", c, (n, v if rng.random() < 0.5 else rng.randint(1, v)), []]])
+            return ["Time", rng.choice([1, 3, 10, 100]), 0]
     if fresh and len(fresh) >= 2 and w.cfg.get("boost") and rng.random() < 0.3:
         # a position changes hands in a new week and the RECEIVER (who has not settled this week yet) gets the quote and claims:
         # the quote must contain the receiver's boosted part, not the previous owner's
@@ -334,6 +349,24 @@ def staking_gen_op(rng, w):
         w.c20_fresh = set(range(1, ss.NUSERS + 1))
         return ["Time", rng.choice([1, 5, 50]), rng.choice([7, 7, 7, 8, 14])]
     fresh = getattr(w, "c20_fresh", None)
+    spend = w.__dict__.setdefault("c20_pending", [])
+    if spend:
+        return spend.pop(0)
+    if w.shadow["rate"] != 0 and not w.shadow["produce"] and rng.random() < 0.5:
+        # production is stopped: what was settled before the stop is still owed - quote and claim while stopped
+        cands = [u for u in range(1, ss.NUSERS + 1) if ss.positions_of(w, u)]
+        if cands:
+            c = rng.choice(cands)
+            n, v = rng.choice(ss.positions_of(w, c))
+            return ["Claim", c, (n, v if rng.random() < 0.5 else rng.randint(1, v))]
+    if w.shadow["rate"] != 0 and w.shadow["produce"] and w.last["supply"] > 0 and rng.random() < 0.04:
+        # scripted: blocks pass, the owner stops production (which settles them), then a quoted claim while stopped
+        cands = [u for u in range(1, ss.NUSERS + 1) if ss.positions_of(w, u)]
+        if cands:
+            c = rng.choice(cands)
+            n, v = rng.choice(ss.positions_of(w, c))
+            spend.extend([["End", ss.OWNER], ["Claim", c, (n, v if rng.random() < 0.5 else rng.randint(1, v))]])
+            return ["Time", rng.choice([1, 3, 10, 100]), 0]
     if fresh and op[0] in ("Stake", "Unstake", "Merge", "ClaimBoosted", "Transfer", "Compound", "Claim", "Unbond") and rng.random() < 0.6:
         c = fresh.pop()
         mine = ss.positions_of(w, c)
